@@ -80,7 +80,7 @@ class ExtrudedRing(RoundHollowShape):
 
         sketch_1 = source.sketch_1
         sketch_2 = source.sketch_2
-        if inner_radius > sketch_1.inner_radius:
+        if inner_radius >= sketch_1.inner_radius:
             raise ExtrudedRingCreationError(
                 "Unable to perform `contract()` operation: new inner radius must be smaller than source's",
                 f"Inner radius: {inner_radius}, sketch inner radius: {sketch_1.inner_radius}",
